@@ -464,18 +464,139 @@ def check_cli(case) -> Res:
     return Res("ok" if not viol else "violations", nontrivial=label, violations=uniq, transitions=8 + len(tamp) * 2)
 
 
+RAW_ESCAPES = [chr(c) for c in range(ord("a"), ord("z") + 1)] + list("0123456789") + ["N", "T", "R", "'", "/", " ", "x41", "u0041", "\\r", "r\\n"]
+
+
+def check_cli_raw(case) -> Res:
+    """A quoted string spelling backslash + <c> for EVERY letter/digit c (documented escapes are only \\" \\\\ \\n \\t; everything else is lenient
+    input): seal to a FILE through the CLI, the file must verify, sealing the file again must reproduce it, and the value read back from
+    the file must be the value read from the source (no content model needed: three runs of the real code against each other)."""
+    esc, place = case
+    body = {"top": 'K::"a\\%sb"\n', "list": 'K::["a\\%sb",x]\n', "block": 'B:\n  K::"a\\%sb"\n'}[place] % esc
+    x = "===D===\n" + body + "===END===\n"
+    L = sl.lab()
+    src, out, out2 = sl.workfile("rs15"), sl.workfile("ro15"), sl.workfile("rp15")
+    for f in (out, out2):
+        if os.path.exists(f):
+            os.unlink(f)
+    with open(src, "w", encoding="utf-8", newline="") as f:
+        f.write(x)
+    cs = dict(raw_escape=esc, place=place, cli=True, raw=True)
+    viol = []
+    try:
+        before = norm(dmap(parse(x)))
+    except Exception:      # noqa: BLE001 - the reader refuses this spelling: nothing to seal
+        return Res("refused", nontrivial=None)
+    q = L["runner"].invoke(L["cli"], ["seal", src, "-o", out])
+    if q.exit_code != 0 or not os.path.exists(out):
+        return Res("seal-failed", nontrivial=(esc, place, "seal-failed"))
+    q = L["runner"].invoke(L["cli"], ["validate", out, "--verify-seal", "--require-seal"])
+    if q.exit_code != 0 or "Seal: VERIFIED" not in q.output:
+        viol.append(dict(descriptor="cli.raw:sealed-file-not-VERIFIED", case=cs, observed=q.output[-300:], expected="exit 0, Seal: VERIFIED"))
+    sealed_text = open(out, "rb").read().decode("utf-8")
+    L["runner"].invoke(L["cli"], ["seal", out, "-o", out2])
+    if os.path.exists(out2) and open(out2, "rb").read().decode("utf-8") != sealed_text:
+        viol.append(dict(descriptor="cli.raw:resealing-changes-file", case=cs, observed=open(out2, "rb").read()[:300], expected=sealed_text[:300]))
+    try:
+        q3 = L["runner"].invoke(L["cli"], ["validate", out, "--verify-seal"])
+        after = norm(dmap(parse(open(out, encoding="utf-8").read())))
+        strip = lambda m: [n for n in m.get("body", []) if not (n[0] == "S" and n[2] == "SEAL")]      # noqa: E731
+        if strip(after) != strip(before):
+            viol.append(dict(descriptor="cli.raw:value-in-sealed-file-differs-from-source", case=cs, observed=str(strip(after))[:200], expected=str(strip(before))[:200]))
+    except Exception as e:      # noqa: BLE001
+        viol.append(dict(descriptor="cli.raw:sealed-file-unreadable", case=cs, observed=str(e)[:200], expected="readable"))
+    return Res("ok" if not viol else "bad", nontrivial=(esc, place), violations=viol, transitions=4)
+
+
+def check_inplace_crash(case) -> Res:
+    """`octave seal f -o f` on a file that already holds a sealed document (its content edited since): the process is killed at EVERY
+    in-scope libc call boundary, and every call fails once with EIO / ENOSPC; afterwards f holds its complete previous bytes or the
+    complete new sealed text - which verifies - and a failing command leaves the previous bytes (C15: the seal of a file is never
+    destroyed by re-sealing it)."""
+    from ..fsshim import shim
+    variant = case
+    L = sl.lab()
+    sb = os.path.join(L["dir"], f"inpl{os.getpid()}")
+    os.makedirs(sb, exist_ok=True)
+    f = os.path.join(sb, "f.oct.md")
+    base = "===D===\nMETA:\n  TYPE::X\n---\nK::v1\nB:\n  L::[a,b,c]\n===END===\n"
+    runner, cli = L["runner"], L["cli"]
+
+    def prepare():
+        for n_ in os.listdir(sb):
+            os.unlink(os.path.join(sb, n_))
+        src = os.path.join(sb, "src.oct.md")
+        with open(src, "w", encoding="utf-8", newline="") as fh:
+            fh.write(base)
+        runner.invoke(cli, ["seal", src, "-o", f])
+        os.unlink(src)
+        if variant == "edited":
+            t = open(f, encoding="utf-8").read().replace("K::v1", "K::v2")
+            with open(f, "w", encoding="utf-8", newline="") as fh:
+                fh.write(t)
+        return open(f, "rb").read()
+
+    def call():
+        def fn():
+            q = runner.invoke(cli, ["seal", f, "-o", f])
+            if q.exception is not None and not isinstance(q.exception, SystemExit):
+                raise q.exception
+            return {"exit": q.exit_code, "output": q.output[-200:]}
+        return fn
+
+    prev = prepare()
+    ref = shim.run_child(call(), sb, f)
+    new = open(f, "rb").read()
+    viol = {}
+    outs = []
+    if ref["raised"] or (ref["result"] or {}).get("exit") != 0:
+        return Res("reference-failed", violations=[dict(descriptor="inplace:fault-free-reseal-failed", case=dict(inplace=variant), observed=str(ref)[:300], expected="exit 0")])
+    q = runner.invoke(cli, ["validate", f, "--verify-seal", "--require-seal"])
+    if q.exit_code != 0:
+        viol["ref"] = dict(descriptor="inplace:resealed-file-not-VERIFIED", case=dict(inplace=variant), observed=q.output[-200:], expected="VERIFIED")
+    N = len([e for e in ref["log"] if e["k"] >= 0])
+    n = 1
+    for k in range(N):
+        for dev, kw in ((("kill", k), dict(mode=shim.LOG | shim.EXIT, exit_k=k)), (("fail", k, "EIO"), dict(mode=shim.LOG | shim.FAIL, fail_k=k, fail_errno=5)),
+                        (("fail", k, "ENOSPC"), dict(mode=shim.LOG | shim.FAIL, fail_k=k, fail_errno=28))):
+            prepare()
+            r = shim.run_child(call(), sb, f, **kw)
+            n += 1
+            now = open(f, "rb").read() if os.path.exists(f) else None
+            op = next((x["op"] for x in r["log"] if x["k"] == k), "?")
+            outs.append((variant,) + dev + (op, now == prev, now == new))
+            cs = dict(inplace=variant, deviation=list(dev), cli=True)
+            if now not in (prev, new):
+                viol.setdefault("torn", dict(descriptor=f"inplace:{dev[0]}:file-is-neither-the-previous-nor-the-new-sealed-text:{op}", case=cs,
+                                             observed=f"after {dev} at {op}: {now!r}"[:300], expected="complete previous bytes or complete new sealed text"))
+            elif dev[0] == "fail" and isinstance(r["result"], dict) and r["result"].get("exit") not in (0, None) and now != prev:
+                viol.setdefault("err", dict(descriptor=f"inplace:fail:command-failed-but-file-changed:{op}", case=cs, observed=f"{r['result']}"[:200], expected="previous bytes"))
+            if r["raised"]:
+                viol.setdefault("raised", dict(descriptor="inplace:command-raised", case=cs, observed=r["raised"][:200], expected="an exit code"))
+    return Res("ok" if not viol else "bad", extra_nontrivial=outs, violations=list(viol.values()), transitions=n)
+
+
 def run(ctx):
     docs = documents(ctx.quick)
     ctx.coverage["bounds"] = {"documents": len(docs)}
     ctx.explore("seal_api", docs, check_doc, chunk=6)
     cli_docs = [x for x in docs if x[0].startswith("X:")] + [x for x in docs if not x[0].startswith("X:")][:: (6 if ctx.quick else 2)]
     ctx.explore("seal_cli", cli_docs, check_cli, chunk=4)
+    ctx.explore("seal_cli_raw_escapes", [(e, p_) for e in RAW_ESCAPES for p_ in ("top", "list", "block")], check_cli_raw, chunk=8)
+    if os.environ.get("LD_PRELOAD", "").find("libfsshim") >= 0:
+        ctx.explore("seal_inplace_crash_points", ["edited", "unchanged"], check_inplace_crash, chunk=1)
+    else:
+        ctx.note("seal_inplace_crash_points skipped: interposer not preloaded")
     sl.cleanup()
 
 
 def replay(ctx, rp):
     c = rp["case"]
     try:
+        if "inplace" in c:
+            return [v for v in check_inplace_crash(c["inplace"]).violations if v["descriptor"] == rp.get("descriptor")]
+        if c.get("raw"):
+            return check_cli_raw((c["raw_escape"], c["place"])).violations
         fn = check_cli if c.get("cli") else check_doc
         r = fn((c["label"], c["doc"]))
         return [v for v in r.violations if v["descriptor"] == rp.get("descriptor")] or r.violations
